@@ -513,6 +513,27 @@ def einsum(sp: Space, spec: str, ops: list[Dense]) -> Dense:
     return Dense(sp, terms)
 
 
+def mul_elementwise(sp: Space, a: "Dense", b: "Dense") -> "Dense":
+    """Elementwise product of two tensors with the same number of axes.  A *literal* unit axis (inserted by `None` indexing / unsqueeze,
+    written () in the network) broadcasts against the other operand's axis by construction; two real axes are identified (obligation)."""
+    if a.ndim() != b.ndim():
+        raise Unmodelled("elementwise product of tensors with different numbers of axes")
+    a, b = a.fresh(), b.fresh()
+    terms = []
+    for ta in a.terms:
+        for tb in b.terms:
+            out = []
+            for k, (x, y) in enumerate(zip(ta.out, tb.out)):
+                if len(x) == 0:
+                    out.append(y)
+                elif len(y) == 0:
+                    out.append(x)
+                else:
+                    out.append(_unify_axes(sp, x, y, f"elementwise * (axis {k})"))
+            terms.append(Term(ta.coef * tb.coef, ta.atoms + tb.atoms, out))
+    return Dense(sp, terms)
+
+
 def _unify_axes(sp: Space, a, b, ctx):
     a_ = tuple(w for w in a if not sp.is_unit(w))
     b_ = tuple(w for w in b if not sp.is_unit(w))
